@@ -33,6 +33,7 @@ def run(ctx):
     ctx.do(rule_strictness)
     ctx.do(rule_forward)
     ctx.do(rule_version_in_scope)
+    ctx.do(rule_version_constants)
     ctx.do(rule_detect)
     from .hidden_state import rule_no_hidden_state
     ctx.do(rule_no_hidden_state, "C14.history-independence")
@@ -197,6 +198,52 @@ def rule_forward(ctx):
     run.floor(R, 20)
 
 
+# version constants bound in version-agnostic code without a guard on the version in force: (caller, callee) -> reason
+VERSION_CONSTANT_OK = {
+    ("stix2.versioning::new_version", "stix2.utils::is_sco"):
+        "asks 'is this a STIX 2.1 cyber-observable' -- a question about that version (the locked-property rule exists only there)",
+}
+
+
+def rule_version_constants(ctx, rule_id="C14.version-constants"):
+    """Code outside the v20 / v21 packages serves both versions.  A literal '2.0' / '2.1' bound to a version parameter there
+    applies that version's rules to every object -- unless the call sits under a test of the version in force (isinstance of
+    the version base class, a spec_version comparison)."""
+    run = ctx.run
+    prog = ctx.prog
+    cg = get_callgraph(prog)
+    n = 0
+    for fi in sorted(prog.functions.values(), key=lambda f: f.id):
+        if fi.module.relpath.startswith("stix2/test") or module_version(fi.module) is not None or "workbench" in fi.module.name:
+            continue
+        for call in cg.calls_in(fi):
+            ts = [t for t in cg.resolve(call, fi) if t.func is not None and t.kind in (EXACT, CHA)]
+            if len(ts) != 1:
+                continue
+            t = ts[0]
+            vp = [p for p in VERSION_PARAMS if p in t.func.all_param_names()]
+            if not vp:
+                continue
+            e = cg.bind(call, t).params.get(vp[0])
+            if not (isinstance(e, ast.Constant) and e.value in ("2.0", "2.1")):
+                continue
+            n += 1
+            c = key(fi.module.relpath, fi.qualname, "%s:%s" % (short(call, 60), e.value))
+            if (fi.id, t.func.id) in VERSION_CONSTANT_OK:
+                run.ok(rule_id, c, VERSION_CONSTANT_OK[(fi.id, t.func.id)])
+                continue
+            guarded = any(("_STIXBase20" in norm(tt) or "_STIXBase21" in norm(tt) or "spec_version" in norm(tt) or "stix_version" in norm(tt)
+                           or "version ==" in norm(tt)) for tt, _pol, _ in guard_chain(call))
+            run.check(guarded, rule_id, c,
+                      "%s serves both spec versions but applies the %s rules (%s) to every object: a %s object is then judged by "
+                      "the other version's rules (e.g. a STIX 2.0 object with an unknown property and a 'toplevel-property-extension' "
+                      "entry passes a strict parse with version='2.0')" % (fi.qualname, e.value, t.func.id, "2.0" if e.value == "2.1" else "2.1"),
+                      file=fi.module.relpath, line=call.lineno, function=fi.qualname,
+                      expected="a guard on the version in force (isinstance(self, _STIXBase20/21), spec_version ==)", found=short(call))
+    if n < 2:
+        raise AnalysisError("fewer than 2 version constants in version-agnostic code found (%d)" % n)
+
+
 def rule_detect(ctx):
     run = ctx.run
     prog = ctx.prog
@@ -230,9 +277,9 @@ def rule_detect(ctx):
 
 # call sites where a version is in scope and deliberately not passed on: (caller id, callee id) -> reason
 VERSION_NOT_FORWARDED_OK = {
-    ("stix2.properties::STIXObjectProperty.clean", "stix2.parsing::parse"):
-        "bundle members are detected individually (a 2.1 bundle may hold members tagged otherwise); a 2.0 bundle refuses 2.1 "
-        "members explicitly -- checked by C14.forward v20-bundle-refuses-v21-members",
+    # (empty: the one former exemption -- STIXObjectProperty.clean -> parse(), "bundle members are detected individually" --
+    # turned out to hide a genuine violation: parse(bundle, version=V) applies V to the wrapper only.  It is a recorded
+    # known finding now, see known_findings.json.)
 }
 
 
